@@ -227,3 +227,37 @@ Theorem C17_status_codes_are_code :
   LG.gen_ST_NO_SCHEDULES = ST_NO_SCHEDULES /\ LG.gen_ST_NO_NODES = ST_NO_NODES.
 Proof. exact status_codes_code. Qed.
 Print Assumptions C17_status_codes_are_code.
+
+(* ---- TransitData::loadAllData IS the code (tools/gen_handler_guards.py regenerates gen/HandlerGuards.v from the current
+   transit_data.cpp and transit_routing_http_server.cpp on every run; Proofs/HandlerGuardsTie.v): the order of the ten updates, the
+   test after each ("ret < 0 && ret != -ENOENT" = Loader2.rc_fatal for every int a loader can return; "ret < 0" for the two
+   unmodelled loaders that always return 0), the stop at the first test that fires, the status recomputed from the collections.
+   Two swapped updates, a dropped test, a constant final status stop this file from compiling ---- *)
+From Coq Require String.
+From TrV Require Proofs.HandlerGuardsTie gen.HandlerGuards.
+Module HG := TrV.gen.HandlerGuards.
+Module HT := TrV.Proofs.HandlerGuardsTie.
+Section HandlerGlueC17.
+Import String.   (* local to this section: the string literals below *)
+
+Theorem C17_load_all_order_is_code :
+  HG.gen_load_all_steps =
+    map (fun mt => (fst mt, snd mt, HG.gen_DS_DATA_READ_ERROR))
+        [ ("updateNodes", HT.fatal_unless_missing); ("updateDataSources", HT.fatal_unless_missing);
+          ("updatePersons", HT.fatal_if_negative); ("updateOdTrips", HT.fatal_if_negative);
+          ("updateAgencies", HT.fatal_unless_missing); ("updateServices", HT.fatal_unless_missing);
+          ("updateLines", HT.fatal_unless_missing); ("updatePaths", HT.fatal_unless_missing);
+          ("updateScenarios", HT.fatal_unless_missing); ("updateSchedules", HT.fatal_unless_missing) ]%string /\
+  HG.gen_load_all_final = HG.LF_data_status /\ HG.gen_main_status_from_collections = true /\
+  (forall r z, HT.rc_is r z -> HT.fatal_unless_missing z = rc_fatal r) /\
+  (forall f, load_steps f = (fst (HT.load_steps_code HG.gen_load_all_steps f mem_empty),
+                             is_some (snd (HT.load_steps_code HG.gen_load_all_steps f mem_empty)))) /\
+  (forall f, load_all f =
+             let r := HT.load_steps_code HG.gen_load_all_steps f mem_empty in
+             (fst r, HT.start_status_code HG.gen_main_status_from_collections HG.gen_load_all_final (snd r) (fst r))).
+Proof.
+  exact (conj (proj1 HT.load_all_steps_code) (conj (proj1 (proj2 HT.load_all_steps_code)) (conj (proj2 (proj2 HT.load_all_steps_code))
+        (conj HT.fatal_unless_missing_code (conj HT.load_steps_is_code HT.load_all_is_code))))).
+Qed.
+Print Assumptions C17_load_all_order_is_code.
+End HandlerGlueC17.
